@@ -113,6 +113,9 @@ type Locker struct {
 	T       *Table
 	Proc    *sched.Proc
 	Timeout time.Duration
+	// Prefix names the lock directory: lockers of different directories never conflict. "" is the
+	// directory every process is expected to use.
+	Prefix string
 }
 
 var _ filelock.Locker = (*Locker)(nil)
@@ -125,6 +128,7 @@ func NewLocker(t *Table, proc *sched.Proc) *Locker {
 }
 
 func (l *Locker) lock(ctx context.Context, path string, exclusive bool) (filelock.Unlocker, error) {
+	path = l.Prefix + path
 	kind := "rlock"
 	if exclusive {
 		kind = "lock"
